@@ -1,6 +1,7 @@
 import Driver.Loop
 import OPM.Model.Wire
 import OPM.Model.Interp
+import OPM.Model.InterpBlocks
 import OPM.Model.Merge
 namespace Driver.Interp
 open OPM OPM.Wire OPM.Interp
@@ -153,6 +154,28 @@ def step (d : DS) (line : String) : DS × String :=
     match k.toNat? with
     | some k => ({ d with st := some (inject d.prog (ensure d) k) }, "ok")
     | none => (d, "bad-op")
+  -- C05 queries (read-only): well-formedness of the method tree; locked / active blocks and the Block-tag clause
+  | ["wf"] => (d, if ProgWF d.prog then "1" else "0")
+  | ["blk"] =>
+    let s := ensure d
+    let ids := fun (l : List Nat) => ",".intercalate (l.map toString)
+    (d, "tagok=" ++ bit (decide (TagOk d.prog s)) ++ "|locked=" ++ ids (lockedBlocks d.prog s) ++
+        "|active=" ++ ids (activeBlocks d.prog s))
+  -- deliberately wrong variant of `blk` for the harness self-test (lists outermost first)
+  | ["blkm"] =>
+    let s := ensure d
+    let ids := fun (l : List Nat) => ",".intercalate (l.map toString)
+    (d, "tagok=" ++ bit (decide (TagOk d.prog s)) ++ "|locked=" ++ ids (lockedBlocks d.prog s).reverse ++
+        "|active=" ++ ids (activeBlocks d.prog s).reverse)
+  -- a tick that also reports whether it was calm (no exotic micro-step, OPM.Model.InterpBlocks)
+  | ["ctick", t, sc, bc, tags] =>
+    match parseRat t, parseRat sc, parseRat bc, intList tags with
+    | some t, some sc, some bc, some tags =>
+      let calm := calmTick d.prog (ensure d) ⟨t, sc, bc, tags⟩
+      let (s, ok) := tick d.prog (ensure d) ⟨t, sc, bc, tags⟩
+      let s := compact d.prog.size s
+      ({ d with st := some s }, if ok then "calm=" ++ bit calm ++ "|" ++ observe d.prog.size s else "diverged")
+    | _, _, _, _ => (d, "bad-op")
   | _ => (d, "bad-op")
 
 end Driver.Interp
